@@ -264,6 +264,9 @@ def _basic_index(rng, shape):
     return idx
 
 
+SIZE_GENERIC = False      # set by generate(): the program must stay admissible at sizes other than the generation sizes
+
+
 def propose(rng: random.Random, pool: list[dict], families: list[str] | None = None):
     """Propose one step (op, arg refs, params) from the pool metadata; may be inapplicable."""
     fam = rng.choice(families or ["unary", "binary", "binary", "scalar", "cmp", "where", "reduce", "layout",
@@ -288,7 +291,8 @@ def propose(rng: random.Random, pool: list[dict], families: list[str] | None = N
         if rng.random() < 0.3:
             const = ["const", "nbool", [1] * crank, [cval], [rng.random() < 0.6]]
         c = rng.random()
-        if c < 0.2 and r >= 1 and _core(d) != "utf8":
+        if c < 0.3 and (r == 1 or (r >= 1 and not SIZE_GENERIC)) and _core(d) != "utf8":
+            # (where the program is re-run at other sizes only rank 1: a constant's other extents cannot follow the size variables)
             # an operand that holds data with no extent along the axis (value-dependent "nothing to do" shortcuts);
             # its dtype still takes part in promotion
             cands = [t for t in DT_POOL if _core(t) != "utf8" and (_is_num(t) == _is_num(d)) and (_is_bool(t) == _is_bool(d))]
@@ -298,7 +302,7 @@ def propose(rng: random.Random, pool: list[dict], families: list[str] | None = N
             if rng.random() < 0.5:
                 args.reverse()
             return "concat", args, {"axis": 0}
-        if c < 0.35 and _is_num(d):
+        if c < 0.5 and _is_num(d):
             # neutral / absorbing elements held as data: x + 0, x * 1, x * 0, x - 0, x ** 1
             op, v = rng.choice([("add", 0), ("multiply", 1), ("multiply", 0), ("subtract", 0), ("pow", 1), ("divide", 1)])
             crank2 = rng.randrange(0, r + 2)
@@ -308,7 +312,7 @@ def propose(rng: random.Random, pool: list[dict], families: list[str] | None = N
             if rng.random() < 0.4 and op in ("add", "multiply"):
                 args.reverse()
             return op, args, {}
-        if c < 0.6:
+        if c < 0.75:
             if _is_bool(d) and not impl.is_nullable(d) or rng.random() < 0.3:
                 if not _is_bool(d):
                     return None
@@ -581,8 +585,11 @@ def _meta(ref, arr, value):
 
 
 def generate(rng: random.Random, n_inputs=(1, 3), n_steps=(1, 6), dtypes=None, families=None,
-             dim_names=("A", "B"), sizes=None, max_rank=3, seed=0, preset_inputs=None) -> dict | None:
+             dim_names=("A", "B"), sizes=None, max_rank=3, seed=0, preset_inputs=None, erase_static=False,
+             size_generic=False) -> dict | None:
     """Generate a program whose every step evaluates eagerly at the generation-time sizes."""
+    global SIZE_GENERIC
+    SIZE_GENERIC = size_generic
     sizes = {**(sizes or {"A": 2, "B": 3}), "U": 1}
     dtypes = dtypes or DT_POOL
     n_in = rng.randint(*n_inputs)
@@ -622,9 +629,27 @@ def generate(rng: random.Random, n_inputs=(1, 3), n_steps=(1, 6), dtypes=None, f
         return None
     pool = [_meta(["in", k], a, v) for k, (a, v) in enumerate(zip(arrs, vals))]
     results = []
-    target = rng.randint(*n_steps)
+    if erase_static:
+        # every input of rank >= 1 is first passed through a value-preserving slice x[0:n, ...]: the library forgets the
+        # static extents of a Slice result, so everything downstream sees unknown extents whose run-time values are
+        # ordinary — decisions taken from static extents are exercised for every function
+        newpool = []
+        for k, (a, v, e) in enumerate(zip(arrs, vals, pool)):
+            if len(e["shape"]) >= 1 and e["dtype"] not in ("utf8", "nutf8"):
+                st = {"op": "getitem", "args": [["in", k]], "params": {"index": [[0, int(e["shape"][0]), None], "..."]}}
+                try:
+                    res = apply_op(st["op"], [a], st["params"])
+                    val = res.to_numpy()
+                except Exception:
+                    newpool.append(e); continue
+                prog["steps"].append(st); results.append(res)
+                newpool.append(_meta(["st", len(results) - 1], res, val))
+            else:
+                newpool.append(e)
+        pool = newpool
+    target = len(prog["steps"]) + rng.randint(*n_steps)
     tries = 0
-    while len(prog["steps"]) < target and tries < target * 8:
+    while len(prog["steps"]) < target and tries < (target + 2) * 8:
         tries += 1
         try:
             prop = propose(rng, pool, families)
